@@ -214,6 +214,7 @@ func (s *pState) clone() *pState {
 func (pi *presenceInterp) run(at presenceAtoms) []pathResult {
 	var out []pathResult
 	budget := 4000
+	seenState := map[string]bool{}
 	var walk func(b, pred *ssa.BasicBlock, st *pState, visited map[*ssa.BasicBlock]int)
 	walk = func(b, pred *ssa.BasicBlock, st *pState, visited map[*ssa.BasicBlock]int) {
 		budget--
@@ -227,6 +228,41 @@ func (pi *presenceInterp) run(at presenceAtoms) []pathResult {
 		}
 		visited[b]++
 		defer func() { visited[b]-- }()
+		// two arrivals at b with the same abstract state explore the same continuations: what can
+		// be read from b on is what the blocks dominating b defined (SSA) and the phis of b as
+		// delivered by this predecessor. (A switch on an environment variable that only decides
+		// whether a diagnostic is printed multiplies the paths by its arms, not the outcomes.)
+		{
+			var kb strings.Builder
+			fmt.Fprintf(&kb, "%d|%v|%v|%s|", b.Index, st.stderr, st.rtdep, strings.Join(st.effects, ","))
+			for _, in := range b.Instrs {
+				ph, ok := in.(*ssa.Phi)
+				if !ok {
+					break
+				}
+				for i, p := range b.Preds {
+					if p == pred {
+						fmt.Fprintf(&kb, "%v;", pi.eval(ph.Edges[i], st, at))
+					}
+				}
+			}
+			for d := b.Idom(); d != nil; d = d.Idom() {
+				for _, in := range d.Instrs {
+					if v, ok := in.(ssa.Value); ok {
+						if av, has := st.env[v]; has {
+							fmt.Fprintf(&kb, "%v;", av)
+						} else {
+							kb.WriteString("-;")
+						}
+					}
+				}
+			}
+			key := kb.String()
+			if seenState[key] {
+				return
+			}
+			seenState[key] = true
+		}
 		for _, in := range b.Instrs {
 			switch x := in.(type) {
 			case *ssa.Phi:
